@@ -63,6 +63,7 @@ def bcSummary (s : Bc.State) : String :=
     match s.rcvs t with
     | .absent => none
     | .refused => some s!"{t}:refused"
+    | .refusedCtx => some s!"{t}:refusedCtx"
     | .have _ _ _ => some s!"{t}:have"
     | .waiting _ _ _ => some s!"{t}:waiting"
     | .gotVal _ _ _ v => some s!"{t}:val{v}"
